@@ -40,6 +40,8 @@ type WFOpts struct {
 	NoExtras   bool
 	NoVariadic bool
 	Names      int // percentage of programs passed through the adversarial naming layer
+	ChainPct   int // percentage of programs that are long chains of cleanup/error providers (10-18 of them)
+	chain      bool
 }
 
 type wfBuilder struct {
@@ -67,6 +69,12 @@ func (b *wfBuilder) addDecl(d Decl) int {
 func GenWF(o WFOpts) *rapid.Generator[*Spec] {
 	return rapid.Custom(func(t *rapid.T) *Spec {
 		b := &wfBuilder{t: t, o: o, s: &Spec{ImportAlias: map[int]string{}}, basic: map[string]bool{}}
+		if o.ChainPct > 0 && b.pct(o.ChainPct, "longchain") {
+			b.o.chain = true
+			b.o.OnlyFunc = true
+			b.o.SingleInj = true
+			b.o.MaxNodes = 18
+		}
 		b.build()
 		b.s.JointSets = b.pct(20, "jointsets")
 		if o.Names > 0 && b.pct(o.Names, "names") {
@@ -78,8 +86,8 @@ func GenWF(o WFOpts) *rapid.Generator[*Spec] {
 
 var (
 	shapesAny = []string{"S", "S", "*S", "*S", "defint", "defstr", "defslice", "defmap", "deffunc", "defchan", "defptr", "defarr",
-		"slice", "slice", "array", "map", "chan", "rchan", "schan", "func", "ptrslice", "ptrptr", "structlit", "basic", "basic", "iface", "ifacelit", "unsafe", "defbool", "deffloat", "emptyiface"}
-	shapesValue  = []string{"S", "*S", "defint", "defstr", "defslice", "defmap", "defarr", "slice", "array", "map", "basic", "defbool", "deffloat", "ptrslice"}
+		"slice", "slice", "array", "map", "chan", "rchan", "schan", "func", "ptrslice", "ptrptr", "structlit", "basic", "basic", "iface", "ifacelit", "unsafe", "defbool", "deffloat", "emptyiface", "generic", "generic2", "ptrgeneric"}
+	shapesValue  = []string{"S", "*S", "defint", "defstr", "defslice", "defmap", "defarr", "slice", "array", "map", "basic", "defbool", "deffloat", "ptrslice", "generic"}
 	shapesMeth   = []string{"S", "*S", "S", "*S", "defint", "*defint", "defslice", "deffunc"}
 	shapesStruct = []string{"S", "*S"}
 	basicPool    = []string{"int", "string", "bool", "float64", "uint8", "int32", "complex128", "uintptr", "int64", "uint", "float32", "int16"}
@@ -94,6 +102,9 @@ func (b *wfBuilder) build() {
 		o.MaxPkgs = 4
 	}
 	n := b.intn(1, o.MaxNodes, "nodes")
+	if o.chain {
+		n = b.intn(11, 18, "chainnodes")
+	}
 	b.nP = b.intn(1, o.MaxPkgs, "pkgs")
 	b.s.Pkgs = append(b.s.Pkgs, Pkg{Dir: "", Name: "app"})
 	for i := 1; i < b.nP; i++ {
@@ -107,6 +118,14 @@ func (b *wfBuilder) build() {
 			max = 3
 		}
 		k := 0
+		if o.chain && max > 0 {
+			// every node depends on its successor: one long acquisition chain
+			nd.deps = append(nd.deps, i+1)
+			max--
+			if max > 1 {
+				max = 1
+			}
+		}
 		if max > 0 {
 			k = b.intn(0, max, "outdeg")
 			if i == 0 && k == 0 && b.pct(80, "rootdeps") {
@@ -114,6 +133,10 @@ func (b *wfBuilder) build() {
 			}
 		}
 		seen := map[int]bool{}
+		for _, d := range nd.deps {
+			seen[d] = true
+		}
+		k += len(nd.deps)
 		for len(nd.deps) < k {
 			d := b.intn(i+1, n-1, "dep")
 			if !seen[d] {
@@ -323,6 +346,19 @@ func (b *wfBuilder) chooseType(i int) {
 	case "*S":
 		nd.base = b.freshStruct(T)
 		nd.t = Ptr(Named(nd.base))
+	case "generic", "generic2", "ptrgeneric":
+		np := 1
+		args := []*Type{Basic("int")}
+		if shape == "generic2" {
+			np = 2
+			args = []*Type{Basic("string"), Slice(Basic("int"))}
+		}
+		d := Decl{Name: T, Form: "struct", TParams: np, Fields: []SField{{Name: "Tok", T: Basic("int")}, {Name: "V", T: &Type{K: "tparam", Basic: "P0"}}}}
+		nd.base = b.addDecl(d)
+		nd.t = &Type{K: "named", Decl: nd.base, Args: args}
+		if shape == "ptrgeneric" {
+			nd.t = Ptr(nd.t)
+		}
 	case "defint":
 		def(Basic("int"))
 	case "*defint":
@@ -483,6 +519,9 @@ func (b *wfBuilder) makeItem(i int) {
 		pc, pe := 30, 30
 		if b.o.MoreErr {
 			pc, pe = 55, 55
+		}
+		if b.o.chain {
+			pc, pe = 92, 70
 		}
 		it.Cleanup = b.pct(pc, "cleanup")
 		it.Err = b.pct(pe, "err")
